@@ -319,7 +319,8 @@ func Run(t *testing.T, scn Scenario, sched Scheduler, workDir string, uidBase *i
 		var wg sync.WaitGroup
 		var uidMu sync.Mutex
 		clientsDone := make(chan struct{})
-		var cwg sync.WaitGroup
+		var cwg, churnWg sync.WaitGroup
+		var stopChurn atomic.Bool
 		for ci, batches := range scn.Clients {
 			ci, batches := ci, batches
 			proc := fmt.Sprintf("c%d", ci+1)
@@ -378,12 +379,13 @@ func Run(t *testing.T, scn Scenario, sched Scheduler, workDir string, uidBase *i
 			// nothing but Reader() / Close(), as fast as possible, while roots are being replaced
 			for ci := 0; ci < scn.Churn; ci++ {
 				wg.Add(1)
-				cwg.Add(1)
+				churnWg.Add(1)
 				go func() {
 					defer wg.Done()
-					defer cwg.Done()
+					defer churnWg.Done()
 					c.Register(fmt.Sprintf("ch%d", ci+1))
-					for k := 0; k < 400; k++ {
+					// as long as batches are being applied (at least 400 rounds, at most 200 000)
+					for k := 0; k < 200000 && (k < 400 || !stopChurn.Load()); k++ {
 						if r, err := s.W.Reader(); err == nil {
 							_, _ = r.Count()
 							_ = r.Close()
@@ -392,7 +394,7 @@ func Run(t *testing.T, scn Scenario, sched Scheduler, workDir string, uidBase *i
 				}()
 			}
 		}
-		go func() { cwg.Wait(); close(clientsDone) }()
+		go func() { cwg.Wait(); stopChurn.Store(true); churnWg.Wait(); close(clientsDone) }()
 
 		var closing atomic.Bool
 		readers := map[string]*openReader{}
